@@ -335,6 +335,60 @@ func TestC20(t *testing.T) {
 				}
 			}
 		}
+		// the same files reached another way: through a symbolic link to the file and through a linked directory (OS
+		// backend), and as members of a zip archive opened as a filesystem (the zip backend)
+		osfs := backends["os"]
+		lens := []int{0, 1, 65, 4096, 100000}
+		_ = os.Symlink(dir, dir+"-linked-directory")
+		defer os.Remove(dir + "-linked-directory")
+		for _, l := range lens {
+			_ = os.Symlink(filepath.Join(dir, fmt.Sprintf("f%d", l)), filepath.Join(dir, fmt.Sprintf("link-to-f%d", l)))
+		}
+		zipPath := dir + "-archive.zip"
+		defer os.Remove(zipPath)
+		var zfs filesystem.ICloseableFS
+		if err := osfs.Zip(dir, zipPath); err != nil {
+			rep.EngineError("zip of the file set: %v", err)
+		} else if z, zf, err := filesystem.NewZipFileSystemFromStandardFileSystem(zipPath, filesystem.NoLimits()); err != nil {
+			rep.EngineError("zip filesystem: %v", err)
+		} else {
+			zfs = z
+			defer func() { _ = z.Close(); _ = zf.Close() }()
+		}
+		type way struct {
+			name string
+			fs   filesystem.FS
+			path func(l int) string
+		}
+		ways := []way{
+			{"os-through-link", osfs, func(l int) string { return filepath.Join(dir, fmt.Sprintf("link-to-f%d", l)) }},
+			{"os-through-linked-directory", osfs, func(l int) string { return filepath.Join(dir+"-linked-directory", fmt.Sprintf("f%d", l)) }},
+		}
+		if zfs != nil {
+			ways = append(ways, way{"zip", zfs, func(l int) string { return fmt.Sprintf("f%d", l) }})
+		}
+		for _, wy := range ways {
+			for _, algo := range algos {
+				for _, l := range lens {
+					want := reference(algo, content(l, 9))
+					p := wy.path(l)
+					for round := 0; round < 2; round++ { // twice: the second calculation must not depend on the first
+						got, err := wy.fs.FileHash(algo, p)
+						fileCases++
+						transitions.Add(1)
+						if err != nil || got != want {
+							rep.Violation(fmt.Sprintf("wrong-FileHash:backend=%s:algo=%s", wy.name, algo), map[string]any{"path": p, "len": l, "round": round, "got": got, "want": want, "err": fmt.Sprint(err)})
+						}
+					}
+					if fh, err := filesystem.NewFileHash(algo); err == nil {
+						got, err := fh.CalculateFile(wy.fs, p)
+						if err != nil || got != want {
+							rep.Violation(fmt.Sprintf("wrong-file-digest:backend=%s:algo=%s:prev=none", wy.name, algo), map[string]any{"path": p, "len": l, "got": got, "want": want, "err": fmt.Sprint(err)})
+						}
+					}
+				}
+			}
+		}
 	}
 
 	// a calculation cancelled while its reader is BLOCKED in Read, the reader waking up during the next calculation on the
